@@ -45,7 +45,17 @@ DeltaVerdicts(ev) ==
 RECURSIVE SumProd(_, _)
 SumProd(a, b) == IF a = <<>> THEN 0 ELSE Head(a) * Head(b) + SumProd(Tail(a), Tail(b))
 SizeVerdicts(ev) == IF ev.total = SumProd(ev.elems, ev.bits) THEN <<>> ELSE <<"size_is_not_elements_times_bits">>
-Verdicts(ev) == CASE ev.kind = "trial" -> TrialVerdicts(ev) [] ev.kind = "delta" -> DeltaVerdicts(ev) [] OTHER -> SizeVerdicts(ev)
+\* kind "score": hm.build(hp) on a compiled reference model; hm.score(y_true, y_pred) = metric * (1 + delta) per sample
+\* (m: the 0/1 accuracy of each sample; d32: delta rounded to float32; one float32 rounding of 1 + delta is allowed)
+ScoreVerdicts(ev) ==
+  (IF ev.sign # DeltaSign(ev.ref, ev.trial) THEN <<"bonus_sign_wrong">> ELSE <<>>)
+  \o (IF \E k \in 1..Len(ev.m) :
+         IF ev.m[k] = 0 THEN ev.score[k][1] # 0
+         ELSE ~Less(DAbs(Add32(ev.score[k], Neg(Add32(One, ev.d32)))), <<1, -21>>)
+      THEN <<"score_is_not_metric_times_one_plus_bonus">> ELSE <<>>)
+  \o (IF ev.trialsize # ev.trial THEN <<"trial_size_metric_is_not_the_trial_size">> ELSE <<>>)
+Verdicts(ev) == CASE ev.kind = "trial" -> TrialVerdicts(ev) [] ev.kind = "delta" -> DeltaVerdicts(ev)
+                  [] ev.kind = "score" -> ScoreVerdicts(ev) [] OTHER -> SizeVerdicts(ev)
 Init == i = 1
 Next == /\ i <= Len(Tr)
         /\ LET v == Verdicts(Tr[i]) IN IF v # <<>> THEN PrintT(<<"REJECT", i, v>>) ELSE TRUE
